@@ -1,2 +1,4 @@
 import Model.Basic
 import Model.Vector
+import Model.Frame
+import Model.Group
